@@ -57,7 +57,19 @@ func stringLeaves() []string {
 		"\u2028", "\u2029", "\x7f", "é", "€", "😀", "\uFFFD",
 		"\x80", "\xe2\x82", "\xf0\x9f\x98", "\xff", "\xc0\xaf", "\xed\xa0\x80",
 		"a\x80b", "é\u2028<\"\\\x01\xe2", "key with space",
+		allBytes(0x01, 0x1f), allBytes(0x20, 0x7f), // every cell of the ASCII half of the escape table
 	}
+}
+
+// allBytes is the string of all byte values lo..hi: one leaf that exercises
+// every cell of the writer's escape table in that range (the table is private
+// to package ojg, so classes cannot be recomputed from it).
+func allBytes(lo, hi int) string {
+	b := make([]byte, 0, hi-lo+1)
+	for i := lo; i <= hi; i++ {
+		b = append(b, byte(i))
+	}
+	return string(b)
 }
 
 func fullLeaves() []any {
